@@ -225,12 +225,12 @@ class Inspector:
         if self.parent is not None:
             for part in self.parent.path.split("."):
                 parent_node = ObjectNode(None, name=part, parent=parent_node)
-        module_node = ObjectNode(value, self.module_name, parent=parent_node)
 
-        # Inspecting members can run code of the package too (lazy imports in a module-level `__getattr__`,
-        # properties, descriptors): it runs with the same import paths as the import above,
-        # and whatever it does to `sys.path` is undone as well.
+        # Wrapping the module in a node and inspecting its members can run code of the package too
+        # (a module-level `__getattr__` probed for `__wrapped__` or importing lazily, properties, descriptors):
+        # it runs with the same import paths as the import above, and whatever it does to `sys.path` is undone as well.
         with sys_path(*import_paths):
+            module_node = ObjectNode(value, self.module_name, parent=parent_node)
             self.inspect(module_node)
         return self.current.module
 
